@@ -1764,6 +1764,16 @@ where
     }
 
     fn notify_fabric_removed(&self, fab_idx: NonZeroU8) {
+        // Whatever way the fabric went away (`RemoveFabric`, or a fail-safe rollback of a
+        // fabric that was just added), no CASE session resumption record scoped to it
+        // may outlive it: the local fabric index is reused by the next fabric added.
+        #[cfg(feature = "case-resumption")]
+        self.matter.with_state(|state| {
+            state.resumption.remove_for_fabric(fab_idx);
+        });
+        #[cfg(feature = "case-resumption")]
+        self.matter.transport().notify_resumption_dirty();
+
         if let Err(e) = self
             .handler
             .lifecycle(self, LifecycleOp::FabricRemoval { fab_idx })
